@@ -933,6 +933,23 @@ class Interp:
     # -- for -----------------------------------------------------------------------
     def for_stmt(self, st, env):
         it = st.iter
+        # `for k, v in enumerate(<small local array>)`: unrolled
+        if isinstance(it, ast.Call) and ast.unparse(it.func) == 'enumerate' \
+                and len(it.args) == 1 and not it.keywords and isinstance(
+                    st.target, ast.Tuple) and len(st.target.elts) == 2 and \
+                all(isinstance(e, ast.Name) for e in st.target.elts) and \
+                not st.orelse:
+            arr = self.ev(it.args[0], env)
+            vals = arr.v if isinstance(arr, LocalArr) else (
+                arr if isinstance(arr, list) else None)
+            if vals is not None:
+                vals = list(vals)
+                kn, vn = (e.id for e in st.target.elts)
+                for k in range(len(vals)):
+                    env[kn] = Aff(k)
+                    env[vn] = vals[k]
+                    self.block(st.body, env)
+                return
         if not (isinstance(it, ast.Call) and ast.unparse(it.func) == 'range'
                 and isinstance(st.target, ast.Name) and not st.orelse):
             raise self.err(st, 'loop form')
